@@ -112,6 +112,9 @@ type upstream struct {
 	conns   []*upConn
 	streams []*sseStream
 	sent    []*sentFrame
+	// frame-shape part
+	framesStarted bool
+	rawSent       []*rawFrame
 }
 
 // canonHdr is the view an HTTP server has of the application headers (X-*) of a
@@ -321,6 +324,9 @@ func (u *upstream) pump(c *upConn) {
 			i, id := spawnEmit, m.ID
 			u.s.Go("emit"+u.in.subs[i].spec.Name, func() { u.emitWS(c, i, id) })
 		}
+		if spawnEmit >= 0 {
+			u.maybeEmitFrames()
+		}
 		if spawnPong {
 			u.s.Go(fmt.Sprintf("pong%d.%d", c.K, nth), func() { u.pong(c) })
 		}
@@ -467,6 +473,7 @@ func (r sseRT) RoundTrip(req *http.Request) (*http.Response, error) {
 		i := st.Sub
 		u.s.Go("emit"+u.in.subs[i].spec.Name, func() { u.emitSSE(st, i) })
 	}
+	u.maybeEmitFrames()
 	if u.spec.Drop == 1+st.Sub {
 		u.s.Go(fmt.Sprintf("drop%d", st.K), func() {
 			u.mu.Lock()
